@@ -360,7 +360,8 @@ struct ReaderSession {
     json out = json::object();
     json blocks = json::array();
     bool done = false;
-    explicit ReaderSession(const std::string& bytes) : is(bytes, std::ios::binary) {}
+    std::string data;
+    explicit ReaderSession(const std::string& bytes) : is(bytes, std::ios::binary), data(bytes) {}
     void fail(const char* kind, const std::exception* e) {
         out["fin"] = kind;
         if (e && std::string(kind) == "err") out["msg"] = std::string(e->what()).substr(0, 200);
@@ -368,8 +369,17 @@ struct ReaderSession {
     }
     void open() {
         try { reader.reset(new CdnsReader(is)); out["preamble"] = preamble_out(reader->m_file_preamble); }
-        catch (CdnsDecoderEnd& e) { fail("end", &e); }
-        catch (std::exception& e) { fail("err", &e); }
+        catch (CdnsDecoderEnd& e) { fail("end", &e); return; }
+        catch (std::exception& e) { fail("err", &e); return; }
+        try {       // as in reader_dump(): the preamble once more, into an object that has read other files before
+            std::istringstream is2(data, std::ios::binary);
+            CdnsDecoder d2(is2);
+            bool indef = false;
+            d2.read_array_start(indef);
+            d2.read_textstring();
+            reused_preamble().read(d2);
+            out["preamble_reused"] = preamble_out(reused_preamble());
+        } catch (std::exception&) {}
     }
     bool step() {
         if (done) return false;
